@@ -18,7 +18,7 @@ RULE = ("paired get_estimates runs on one synthetic election (outlier models ON,
 KINDS = ["partial-count", "partial-pev", "blocklisted-reporting", "blocklisted-partial", "zero-baseline", "unexpected", "state-blocklisted"]
 
 
-def pick_and_perturb(rng, case, kind):
+def pick_and_perturb(rng, case, kind, large=False):
     """returns (case', unit id) or None"""
     c2 = copy.deepcopy(case)
     p = c2["params"]
@@ -74,7 +74,7 @@ def pick_and_perturb(rng, case, kind):
         lo = 0
         hi = max(0, int(thr) - 1)
         f["percent_expected_vote"] = rng.randint(lo, hi) if hi >= lo else 0
-    bump(f)
+    bump(f, factor=40.0 if large else None)
     return c2, f["geographic_unit_fips"]
 
 
@@ -123,7 +123,7 @@ def worker(job):
         if case["office"] == "H" and "district" not in case["params"]["aggregates"]:
             case["params"]["aggregates"].append("district")
         # two unexpected units were requested: make sure they have a complete key
-    pp = pick_and_perturb(rng, case, kind)
+    pp = pick_and_perturb(rng, case, kind, large=(job[2] == "partial-count-large"))
     out = {"job": list(job), "office": case["office"], "ok": False, "fails": [], "applicable": pp is not None}
     if pp is None:
         return out
@@ -244,7 +244,7 @@ def run(chk):
         for pi in ("nonparametric", "gaussian", "bootstrap"):
             for kind in KINDS:
                 jobs.append((rng.randint(0, 2**31), pi, kind))
-    for _ in range(3 if chk.tier == "quick" else 20):
+    for _ in range(8 if chk.tier == "quick" else 40):
         jobs.append((rng.randint(0, 2**31), "gaussian", "partial-count-large"))
     outs = core.pmap(worker, jobs)
     n_ok = 0
